@@ -159,6 +159,20 @@ def run(ctx: Any, prog: Program) -> None:
         src = ast.unparse(outer[0])
         ok = "by_class['func_instance']" in src and any(isinstance(n, ast.Return) for n in ast.walk(outer[0]))
         ctx.check('C17.N2', ok, ins, outer[0], 'each pass must re-read the remaining func_instance entities and return when none are left', text='worklist re-read, early return')
+        # every return inside the pass loop is taken only when the work list just read from by_class['func_instance'] is empty: instances
+        # added by this pass (nested instances of templates, including cached ones) are otherwise left uncollapsed
+        work = {t.id for st in outer[0].body if isinstance(st, ast.Assign) and "by_class['func_instance']" in ast.unparse(st.value) for t in st.targets if isinstance(t, ast.Name)}
+        for r in [n for n in ast.walk(outer[0]) if isinstance(n, ast.Return)]:
+            par = ins.parents.get(r)
+            guarded = False
+            if isinstance(par, ast.If) and r in par.body and ins.parents.get(par) is outer[0]:
+                t = par.test
+                if isinstance(t, ast.UnaryOp) and isinstance(t.op, ast.Not) and (dotted(t.operand) in work or "by_class['func_instance']" in ast.unparse(t.operand)):
+                    guarded = True
+                if isinstance(t, ast.Compare) and len(t.ops) == 1 and isinstance(t.ops[0], ast.Eq) and ast.unparse(t.left) in {f'len({w})' for w in work} and ast.unparse(t.comparators[0]) == '0':
+                    guarded = True
+            ctx.check('C17.N2', guarded, ins, r, 'collapse_all returns from inside the pass loop although func_instance entities may remain (the only sound early exit is an empty '
+                      "by_class['func_instance'] at the start of a pass); instances nested in a template would stay uncollapsed", text='early return only on empty work list')
         # cache keyed by file name
         ok = any(isinstance(n, ast.Subscript) and dotted(n.value) == 'file_cache' and dotted(n.slice) == 'inst.filename' for n in ast.walk(outer[0]))
         ctx.check('C17.N2', ok, ins, outer[0], 'parsed templates must be cached under inst.filename', text='template cache key')
@@ -249,8 +263,46 @@ def run(ctx: Any, prog: Program) -> None:
             ctx.check('C17.N3', got == {want}, vm, sl, f'Side.localise applies {sorted(got)} to {nm}; it must be transformed {kind}: `{want}`', text=f'Side.localise {nm}')
     ul = vm.func('UVAxis.localise')
     src = ast.unparse(ul)
-    ok = 'vec = self.vec() @ angles' in src and 'self.offset - vec.dot(origin) / self.scale' in src.replace('(', '(').replace('  ', ' ')
-    ctx.shape('C17.N3', ok, vm, ul, 'UVAxis.localise must rotate the axis and shift the offset by -(axis . origin) / scale (texture lock)', text='UVAxis.localise')
+    rot_vars = {t.id for n in walk_no_nested(ul) if isinstance(n, ast.Assign) and isinstance(n.value, ast.BinOp) and isinstance(n.value.op, ast.MatMult) and 'self.vec()' in ast.unparse(n.value.left)
+                and dotted(n.value.right) == 'angles' for t in n.targets if isinstance(t, ast.Name)}
+    ctors = [c for c in walk_no_nested(ul) if isinstance(c, ast.Call) and dotted(c.func) == 'UVAxis' and len(c.args) >= 4]
+    ctx.shape('C17.N3', len(rot_vars) == 1 and len(ctors) >= 1, vm, ul, 'UVAxis.localise: `<v> = self.vec() @ angles` and `UVAxis(x, y, z, offset, scale)` found', text='UVAxis.localise')
+    if len(rot_vars) == 1 and ctors:
+        rv = next(iter(rot_vars))
+
+        def is_shift(e: ast.AST) -> bool:
+            # self.offset - <rv>.dot(origin) / self.scale
+            return (isinstance(e, ast.BinOp) and isinstance(e.op, ast.Sub) and dotted(e.left) == 'self.offset' and isinstance(e.right, ast.BinOp) and isinstance(e.right.op, ast.Div)
+                    and dotted(e.right.right) == 'self.scale' and isinstance(e.right.left, ast.Call) and dotted(e.right.left.func) == f'{rv}.dot' and [dotted(a) for a in e.right.left.args] == ['origin'])
+
+        def zero_scale_only(node: ast.AST) -> bool:
+            """the statement runs only when self.scale == 0 (the one case where the shift cannot be computed)"""
+            par = vm.parents.get(node)
+            if not isinstance(par, ast.If):
+                return False
+            t = par.test
+            in_body = any(node is b for b in par.body)
+            ts = ast.unparse(t)
+            if in_body:
+                return ts in ('self.scale == 0', 'self.scale == 0.0', 'not self.scale')
+            return ts in ('self.scale != 0', 'self.scale != 0.0', 'self.scale')
+        for c in ctors:
+            off = c.args[3]
+            vals = [(off, c)]
+            if isinstance(off, ast.Name):
+                vals = [(n.value, n) for n in walk_no_nested(ul) if isinstance(n, ast.Assign) and any(isinstance(t, ast.Name) and t.id == off.id for t in n.targets)]
+            ctx.shape('C17.N3', bool(vals), vm, c, 'offset argument of the new UVAxis has a definition', text='UVAxis.localise offset defined')
+            for v, st in vals:
+                loc_origin = {t.id for n in walk_no_nested(ul) if isinstance(n, ast.Assign) and any(isinstance(x, ast.Name) and x.id == 'origin' for x in ast.walk(n.value)) for t in n.targets if isinstance(t, ast.Name)}
+                uses_origin = any(isinstance(x, ast.Name) and (x.id == 'origin' or x.id in loc_origin) for x in ast.walk(v))
+                if uses_origin and not is_shift(v):
+                    ctx.shape('C17.N3', False, vm, v, f'offset formula `{ast.unparse(v)[:70]}` is not the enumerated `self.offset - <axis>.dot(origin) / self.scale`', text='UVAxis.localise offset shift')
+                    continue
+                ok = is_shift(v) or zero_scale_only(st)
+                ctx.check('C17.N3', ok, vm, v, f'UVAxis.localise: the new offset is `{ast.unparse(v)[:70]}`' + (f' under `{ast.unparse(vm.parents[st].test)}`' if isinstance(vm.parents.get(st), ast.If) else '')
+                          + '; texture lock needs offset - (rotated axis . origin) / scale for every non-zero scale (negative scales are mirrored textures, not errors)', text='UVAxis.localise offset shift')
+            ctx.check('C17.N3', ast.unparse(c.args[0]) == f'{rv}.x' and ast.unparse(c.args[1]) == f'{rv}.y' and ast.unparse(c.args[2]) == f'{rv}.z' and len(c.args) >= 5 and dotted(c.args[4]) == 'self.scale', vm, c,
+                      'the localised UVAxis must take the rotated axis and keep the scale', text='UVAxis.localise axis and scale')
     so = vm.func('Solid.localise')
     ok = any(isinstance(c, ast.Call) and isinstance(c.func, ast.Attribute) and c.func.attr == 'localise' and [dotted(a) for a in c.args] == ['origin', 'angles'] for c in walk_no_nested(so))
     ctx.check('C17.N3', ok, vm, so, 'Solid.localise must localise every side with the same origin and orientation', text='Solid.localise')
@@ -335,6 +387,9 @@ def n6_substitute(ctx: Any, vm: Any) -> None:
 
 
 MUTANTS = [
+    {'id': 'uv_offset_only_for_positive_scale', 'file': 'vmf.py', 'find': "        offset = self.offset - vec.dot(origin) / self.scale\n", 'replace': "        offset = self.offset\n        if self.scale > 0:\n            offset = self.offset - vec.dot(origin) / self.scale\n", 'expect': 'C17.N3'},
+    {'id': 'uv_offset_guard_zero_scale', 'file': 'vmf.py', 'find': "        offset = self.offset - vec.dot(origin) / self.scale\n", 'replace': "        if self.scale != 0:\n            offset = self.offset - vec.dot(origin) / self.scale\n        else:\n            offset = self.offset\n", 'expect': None},
+    {'id': 'collapse_all_stops_without_nested', 'file': 'instancing.py', 'find': "            collapse_one(vmf, inst, file, engine_cache=fgd_cache)\n", 'replace': "            collapse_one(vmf, inst, file, engine_cache=fgd_cache)\n        if len(file_cache) > 64:\n            return\n", 'expect': 'C17.N2'},
     {'id': 'fixup_pattern_empty_branch', 'file': 'vmf.py', 'find': "            sections.append('[a-z_][a-z0-9_]*')\n            self._matcher = re.compile(\n                rf'(!)?\\$({\"|\".join(sections)})',", 'replace': "            self._matcher = re.compile(\n                rf'(!)?\\$({\"|\".join(sections)}|[a-z_][a-z0-9_]*)',", 'expect': 'C17.N6'},
     {'id': 'hidden_objects_collapsed', 'file': 'instancing.py', 'find': "        if old_brush.hidden or not old_brush.vis_shown:\n            continue", 'replace': "        if not old_brush.vis_shown:\n            continue", 'expect': 'C17.N5'},
     {'id': 'localise_template_brush', 'file': 'instancing.py', 'find': "        new_brush = old_brush.copy(vmf_file=vmf, side_mapping=inst.face_ids, keep_vis=visgroup is not False)\n        vmf.add_brush(new_brush)", 'replace': "        new_brush = old_brush.copy(vmf_file=vmf, side_mapping=inst.face_ids, keep_vis=visgroup is not False)\n        old_brush.localise(origin, orient)\n        vmf.add_brush(new_brush)", 'expect': 'C17.N1'},
